@@ -76,6 +76,17 @@ var cmechs = []cmech{
 	{id: "ptrToLocal", setup: []cline{cl("var loc string"), cl("p := &loc")}, params: "p *string", args: "p",
 		write: func(x string) []cline { return []cline{cacc("*p = "+x, "p", true)} },
 		read:  func(y string) []cline { return []cline{cacc(y+" = *p", "p", false)} }},
+	// the pointer to the shared object travels inside a struct passed BY VALUE to the goroutine
+	{id: "structByValue", decls: []cline{cl("type Box struct{ P *O }")}, setup: []cline{cl("b := Box{P: &O{}}")}, params: "b Box", args: "b",
+		write: func(x string) []cline { return []cline{cacc("b.P.F = "+x, "&b.P.F", true)} },
+		read:  func(y string) []cline { return []cline{cacc(y+" = b.P.F", "&b.P.F", false)} }},
+	{id: "structByValueNested", decls: []cline{cl("type Box struct{ P *O }"), cl("type Box2 struct {"), cl("\tIn Box"), cl("\tN  int"), cl("}")},
+		setup: []cline{cl("b := Box2{In: Box{P: &O{}}}")}, params: "b Box2", args: "b",
+		write: func(x string) []cline { return []cline{cacc("b.In.P.F = "+x, "&b.In.P.F", true)} },
+		read:  func(y string) []cline { return []cline{cacc(y+" = b.In.P.F", "&b.In.P.F", false)} }},
+	{id: "arrayByValue", setup: []cline{cl("b := [1]*O{&O{}}")}, params: "b [1]*O", args: "b",
+		write: func(x string) []cline { return []cline{cacc("b[0].F = "+x, "&b[0].F", true)} },
+		read:  func(y string) []cline { return []cline{cacc(y+" = b[0].F", "&b[0].F", false)} }},
 	// the shared object is written / read inside a callee that receives it as an EXPLICIT pointer argument; the callee is
 	// reached through an interface method, a static function, a function value, a pointer-receiver method
 	{id: "setterIface", decls: []cline{cl("type Lab interface {"), cl("\tSet(o *O, s string)"), cl("\tGet(o *O) string"), cl("}"), cl("type lab struct{}"),
